@@ -72,7 +72,7 @@ class FakeSock:
         self.out = []
         self.closed = False
 
-    def makefile(self, mode):
+    def makefile(self, mode="r", *args, **kw):      # buffering / encoding / newline: accepted like a real socket's
         return self
 
     def readline(self):
